@@ -52,37 +52,6 @@ def _aux(xs):
     return xs.aux
 
 
-def on_append(interp, xs, n, v):
-    """a mutable list has just received v at position n (its old length): the measure of the new contents
-    is that of the old ones below n+1 and join(n) + v at n+1"""
-    a = xs.aux
-    if not isinstance(v, (SStr, str)):
-        a.clear()
-        a['nojoin'] = True
-        return
-    if a.get('nojoin'):
-        return
-    n = z3.simplify(n)
-    n1 = z3.simplify(n + 1)
-    if z3.is_int_value(n) and n.as_long() == 0:
-        old_j = lambda t: z3.StringVal('')
-        whole = to_z3(v)
-    else:
-        old_j = _jfun(interp, xs)
-        whole = z3.Concat(old_j(n), to_z3(v))
-
-    def jfun(t):
-        t = z3.simplify(_zi(t))
-        if t.eq(n1):
-            return whole
-        if z3.is_int_value(t) and z3.is_int_value(n1):
-            return whole if t.as_long() == n1.as_long() else old_j(t)
-        return z3.If(t == n1, whole, old_j(t))
-
-    a['jfun'] = jfun
-    a['base'] = True
-
-
 # ------------------------------------------------------------------------------ prefix join
 
 def _jfun(interp, xs):
@@ -158,6 +127,14 @@ def prefix_join(interp, xs, i):
         return out
     if not isinstance(xs, SList):
         raise Unsupported('prefix_join of %r' % (xs,))
+    from .mlist import MList
+    if isinstance(xs, MList):
+        # a mutable list: ONE join measure, that of pyvc.mlist (the fold over what has been appended to the
+        # havocked base), so that `''.join(xs)` in code and `join_of(xs)` in a clause are the same term
+        if z3.simplify(_zi(i) == xs.length).eq(z3.BoolVal(True)):
+            from . import mlist
+            return mlist.join(interp, '', xs)
+        raise Unsupported('prefix_join of a mutable list at an index other than its length')
     from . import seqs
     parts = seqs.parts_of(xs)
     if len(parts) == 1 and parts[0][0] == 'base' and parts[0][1] is not xs:
